@@ -6,8 +6,9 @@
    A loop that is at PRet takes no other action, and its send commutes with every action of the other
    loop and of the parent except the parent's receive; so the replay performs a hidden send only when
    the observed receive needs it (any accepted schedule can be reordered into that shape). *)
-From Hy Require Import lib.Harness model.C06_Relay gen.ParamsC06.
+From Hy Require Import lib.Harness model.C04_Framing model.C06_Relay model.C06_E2E gen.ParamsC06.
 From Coq Require Import ZArith Bool.
+From Coq Require Strings.String.
 Local Open Scope N_scope.
 
 (* 32-bit polynomial digest, same function as c06Digest of the Go harness (no division: cheap in the VM) *)
@@ -232,9 +233,135 @@ Fixpoint xfinal (i : nat) (rels : list xrel) (ws : list rrun) (tr : list xobs) :
   | _, _ => false
   end.
 
+(* ---- end-to-end cases: one connection over the real codecs (model/C06_E2E.v).
+   Server half (level (a) harness with an "e2e" object): the request frame is what the real WriteTCPRequest produced
+   (address, padding as drawn), the client stream is the script `usegs` (header stretches and payload stretches per
+   event, with the event's error), it is parsed by the model of the request phase, the relay log is replayed as for
+   CRelay and the Reads of both loops are checked to be the Reads of the two scripts; the response frame is what the
+   real WriteTCPResponse produced.  Client half (real client.TCP / tcpConn.Read on a QUIC stream served the first
+   `cut` bytes of what the server half wrote, ended by FIN or reset): its observable outcome is compared with
+   client_io of the model on a script of those bytes. *)
+Definition sbytes (s : String.string) : bytes := String.list_byte_of_string s.
+Definition mk_err (k : N) : option errc := match k with 0 => None | 1 => Some EEof | _ => Some EOther end.
+Inductive useg := USeg (hlo hlen poff pn : N) (err : N).
+Definition seg_ev (hdr : bytes) (a b : N) (u : useg) : ev :=
+  match u with
+  | USeg hlo hlen poff pn k =>
+      Ev (firstn (N.to_nat hlen) (skipn (N.to_nat hlo) hdr) ++ gen_data_from a b poff (N.to_nat pn)) (mk_err k)
+  end.
+Definition mk_script (hdr : bytes) (a b : N) (segs : list useg) : script := map (seg_ev hdr a b) segs.
+
+(* the fake's scripted errors: "eof" = io.EOF, "err" = fake error 7; 90 / 92 = Read after the end was closed / after ten
+   idle minutes (the teardown, not part of the peer's stream): they end the comparison of that loop *)
+Definition er_match (er : eerr) (oe : option errc) : bool :=
+  match er, oe with
+  | EN, None => true
+  | EEOF, Some EEof => true
+  | EE 7, Some EOther => true
+  | _, _ => false
+  end.
+Fixpoint reads_okb (s : script) (l : list lact) : bool :=
+  match l with
+  | [] => true
+  | LRead bl c er :: t =>
+      match er with
+      | EE 90 | EE 92 => match c with [] => reads_okb s t | _ => false end
+      | _ => let r := read1 (N.to_nat bl) s in
+             beqb c (fst (fst r)) && er_match er (snd (fst r)) && reads_okb (snd r) t
+      end
+  | _ :: t => reads_okb s t
+  end.
+
+(* observable outcome of the client: how TCP() ended (0 ok, 100 DialError msg, else an error class), the bytes the
+   application got, how its Reads ended (100 DialError msg, else an error class) *)
+Definition ecode (e : errc) : N := match e with EEof => 1 | EShort => 2 | EInvalid => 3 | _ => 4 end.
+Inductive cout := COut (tcp : N) (tmsg : bytes) (got : bytes) (fin : N) (fmsg : bytes).
+Definition cout_of (r : rderr + (bytes * option rderr)) : option cout :=
+  match r with
+  | inl (RDial m) => Some (COut 100 m [] 0 [])
+  | inl (RResp e) | inl (RStream e) => Some (COut (ecode e) [] [] 0 [])
+  | inr (got, Some (RDial m)) => Some (COut 0 [] got 100 m)
+  | inr (got, Some (RResp e)) | inr (got, Some (RStream e)) => Some (COut 0 [] got (ecode e) [])
+  | inr (_, None) => None
+  end.
+(* the client half as observed: fast open, bytes served, how the stream ended (0 FIN, 1 reset), where the model's
+   script is cut, the application's buffer size; outcome *)
+Inductive cobs := CObs (fo : bool) (cut endk csplit bsz : N) (tcp : N) (tmsg : String.string) (gotlen gotdg : N)
+                       (fin : N) (fmsg : String.string).
+
+Definition client_ok (out : bytes) (o : cobs) : bool :=
+  match o with
+  | CObs fo cut endk csplit bsz tcp tmsg gotlen gotdg fin fmsg =>
+      let served := firstn (N.to_nat cut) out in
+      let sc := [Chunk (firstn (N.to_nat csplit) served); Chunk (skipn (N.to_nat csplit) served);
+                 Ev [] (Some (match endk with 0 => EEof | _ => EOther end))] in
+      let ns := repeat (N.to_nat bsz) (N.to_nat (blen served / bsz + 3)) in
+      match cout_of (client_io fo sc ns) with
+      | None => false
+      | Some (COut mtcp mtmsg mgot mfin mfmsg) =>
+          match endk with
+          | 0 => (tcp =? mtcp) && beqb (sbytes tmsg) mtmsg && (fin =? mfin) && beqb (sbytes fmsg) mfmsg &&
+                 (blen mgot =? gotlen) && (dg32 mgot =? gotdg)
+          | _ => (* a reset may overtake bytes already written: the outcome of the model, or a reset at an earlier point *)
+                 ((tcp =? mtcp) && beqb (sbytes tmsg) mtmsg || (tcp =? 4)) &&
+                 ((tcp =? 4) || (fin =? mfin) && beqb (sbytes fmsg) mfmsg || (fin =? 4)) &&
+                 (gotlen <=? blen mgot) && (dg32 (firstn (N.to_nat gotlen) mgot) =? gotdg)
+          end
+      end
+  end.
+
+Definition dial_err_run (msg : bytes) : list act := [AReadReq true; ADial (Some msg); AWriteResp false msg; ACloseStream].
+
 Inductive case :=
 | CRelay (m : mode) (tr : list obs) (complete : bool) (tx rx : N) (su_len su_dg sd_len sd_dg : N)
-| CXRelay (rels : list xrel) (tr : list xobs).
+| CXRelay (rels : list xrel) (tr : list xobs)
+| CE2E (m : mode) (addr reqpad : String.string) (hdr_len hdr_dg : N)
+       (ua ub : N) (usegs : list useg) (da db : N) (dsegs : list useg)
+       (dial_err : option String.string) (resppad : String.string) (resp_len resp_dg : N)
+       (tr : list obs) (tx rx sul sud sdl sdd : N) (cli : option cobs).
+
+Definition check_e2e (m : mode) (addr reqpad : String.string) (hdr_len hdr_dg : N)
+       (ua ub : N) (usegs : list useg) (da db : N) (dsegs : list useg)
+       (dial_err : option String.string) (resppad : String.string) (resp_len resp_dg : N)
+       (tr : list obs) (tx rx sul sud sdl sdd : N) (cli : option cobs) : bool :=
+  let addrb := sbytes addr in
+  let reqframe := real_write_req (sbytes reqpad) addrb in
+  let wr := real_write_resp (sbytes resppad) in
+  drawableb tcpRequestPaddingMin tcpRequestPaddingMax (sbytes reqpad) &&
+  drawableb tcpResponsePaddingMin tcpResponsePaddingMax (sbytes resppad) &&
+  (blen reqframe =? hdr_len) && (dg32 reqframe =? hdr_dg) &&
+  match run_on server_read_request (mk_script reqframe ua ub usegs) with
+  | (Ok a, st1) =>
+      beqb a addrb &&
+      match dial_err with
+      | Some msg =>
+          let run := dial_err_run (sbytes msg) in
+          let out := stream_out wr run in
+          (blen out =? resp_len) && (dg32 out =? resp_dg) &&
+          match tr with [OCloseS] => true | _ => false end &&
+          match exec (init m) run with
+          | Some s => match par s with QDone => true | _ => false end
+          | None => false
+          end &&
+          (sul =? 0) && (sdl =? 0) &&
+          match cli with Some o => client_ok out o | None => true end
+      | None =>
+          match replay ((0, 0), (0, 0)) (relay_init m) tr [] with
+          | None => false
+          | Some (s, full) =>
+              let run := accept_run ++ full in
+              let out := stream_out wr run in
+              final_ok m tr true tx rx sul sud sdl sdd s full &&
+              match exec (init m) run with Some _ => true | None => false end &&
+              reads_okb (rs_script st1) (proj Up full) &&
+              reads_okb (mk_script [] da db dsegs) (proj Down full) &&
+              (blen (wr true Connected) =? resp_len) && (dg32 (wr true Connected) =? resp_dg) &&
+              (blen out =? resp_len + sdl) &&
+              match cli with Some o => client_ok out o | None => true end
+          end
+      end
+  | _ => false
+  end.
 
 Definition check (c : case) : bool :=
   match c with
@@ -248,6 +375,8 @@ Definition check (c : case) : bool :=
       | None => false
       | Some ws => xfinal 0 rels ws tr
       end
+  | CE2E m addr reqpad hl hd ua ub us da db ds de rp rl rd tr tx rx sul sud sdl sdd cli =>
+      check_e2e m addr reqpad hl hd ua ub us da db ds de rp rl rd tr tx rx sul sud sdl sdd cli
   end.
 
 Definition mismatches (l : list case) : list nat := mism_from check 0 l.
